@@ -560,6 +560,8 @@ def run(ctx, tier):
     results += deregister_only_own(ctx)
     results += private_map(ctx)
     results += snapshot_fixed(ctx)
+    import c04
+    results += c04.atomic_begin(ctx, rule='C03.atomic-begin')
     import c13
     results += c13.file_lock_clauses(ctx, 'C03')
     import c10
